@@ -42,7 +42,7 @@ def main(argv=None):
     tier = argv[1] if len(argv) > 1 else os.environ.get("VERIF_TIER", "quick")
     import signal
     signal.signal(signal.SIGALRM, _alarm)
-    signal.alarm(int(os.environ.get("PFSA_TIMEOUT", "300" if tier == "quick" else "900")))
+    signal.alarm(int(os.environ.get("PFSA_TIMEOUT", "600" if tier == "quick" else "3600")))
     run = None
 
     def partial(msg):
